@@ -120,16 +120,20 @@ def add_ghash(reg):
 
 
 def add_number(reg):
-    """long_to_bytes / bytes_to_long with the two extra facts this area needs (both are statements of big-endian notation)"""
+    """long_to_bytes / bytes_to_long with the extra facts this area needs (all are statements of big-endian notation).
+    Eager `impl` where the consequent is total: a lazy `==>` costs two feasibility queries per clause and call."""
     reg.add(Contract(N + 'long_to_bytes', params={'n': 'int', 'blocksize': 'int'},
                      raises={'ValueError': ('iff', 'n < 0 or blocksize < 0')}, result='bytes',
                      ensures={'value': 'be(result) == n',
                               'blocks': 'blocksize > 0 ==> (len(result) % blocksize == 0 and len(result) >= 1)',
-                              'fits8': '(blocksize == 8 and n < 2**64) ==> result == spec.aead1.u64be(n)'},
+                              'fits8': 'impl(conj(blocksize == 8, n < 2**64), result == spec.aead1.u64be(n))',
+                              # the last `blocksize` bytes hold n mod 256^blocksize (CMAC sub-key shift: blocks of 8 / 16 bytes)
+                              'low8': 'impl(blocksize == 8, result[len(result) - 8:] == spec.aead1.ibe(n % 2**64, 8))',
+                              'low16': 'impl(blocksize == 16, result[len(result) - 16:] == spec.aead1.ibe(n % 2**128, 16))'},
                      pure=True, assumed='bounded: bounded/bigint.py long_to_bytes against int.to_bytes'))
     reg.add(Contract(N + 'bytes_to_long', params={'s': 'bytes'}, result='int',
                      ensures={'value': 'result == be(s)',
-                              'low32': 'len(s) >= 4 ==> result % 4294967296 == spec.aead1.be4(s[len(s) - 4:])',   # int(X) mod 2^32 = int(LSB_32(X))
+                              'low32': 'impl(len(s) >= 4, result % 4294967296 == spec.aead1.be4(s[len(s) - 4:]))',   # int(X) mod 2^32 = int(LSB_32(X))
                               'inverse': 'spec.aead1.ibe(result, len(s)) == bytes(s)'},                           # [int(X)]_len(X) = X
                      pure=True, assumed='bounded: bounded/bigint.py bytes_to_long against int.from_bytes'))
 
@@ -171,7 +175,7 @@ def registry(state=None, key='GCM', buf='buffer', out='none|bytearray', clmul='<
                      ensures=ens({'stream': '%s == %s + bytes(assoc_data)' % (S, OS),
                               'auth_len': 'self._auth_len == old(self._auth_len) + len(assoc_data)',
                               'next': next_is(M, after(key, 'update')), 'self': 'result is self'}),
-                     sets={'self._next': repr(tuple(after(key, 'update')))},
+                     sets={'self._next': repr(tuple(after(key, 'update')))}, returns='self',
                      modifies=['self._next', 'self._cache', 'self._signer.g_fed', 'self._auth_len'], unchanged_on_raise=['TypeError'],
                      opaque=OPQ + ['spec.aead1.pad16']))
 
